@@ -119,6 +119,12 @@ impl Workspace {
         Ok(loc)
     }
 
+    /// Verification hook: returns the workspace copy of an open document, if any.
+    #[cfg(feature = "verif")]
+    pub fn verif_text(&self, loc: &Locator) -> Option<&str> {
+        self.docs.get(loc).map(String::as_str)
+    }
+
     /// Loads, parses and compiles a program.
     pub fn load(&mut self, loc: &Locator) -> anyhow::Result<ModuleSet> {
         let loader = &mut WorkspaceLoader(self);
